@@ -19,12 +19,12 @@ class C13(WrapHarness):
                 for sep in (('A', 'U') if feat == 'full' else ('A',)):
                     for split in ('N', 'H'):
                         for bw in (True, False):
-                            if q and feat == 'nd' and (split == 'N' or not bw):
+                            if q and ((feat == 'nd' and (split == 'N' or not bw)) or (algo == 'O' and split == 'N')):
                                 continue
                             c = {'feat': feat, 'algo': algo, 'sep': sep, 'split': split, 'bw': bw, 'n': 3 if q else 4,
-                                 'ntok': 2 if q else 3, 'wmax': 1 << 20}
+                                 'ntok': (1 if algo == 'O' else 2) if q else 3, 'wmax': 1 << 20}
                             if sep == 'U':
-                                c['alpha'] = [' ', 'a', '-', '你', '\n'] if q else [' ', 'a', '-', '你', '\n', '́', ')']
+                                c['alpha'] = [' ', 'a', '-', '你'] if q else [' ', 'a', '-', '你', '\n', '́', ')']
                             out.append(c)
         return out
 
